@@ -514,6 +514,24 @@ impl Prop for Malformed {
 
 pub fn run(env: &mut Env) {
     let t = env.thorough();
+    // every day of the years 0001..=9999: the Date and one DateTime of that day through Display,
+    // FromStr and serde
+    let first = cal::days_from_ymd(1, 1, 2);
+    let last = cal::days_from_ymd(9999, 12, 30);
+    const CH: i64 = 4096;
+    let n_chunks = ((last - first) / CH + 1) as u64;
+    let seed = env.seed;
+    env.run_enum::<TextForms, _>(n_chunks, move |c| {
+        let lo = first + c as i64 * CH;
+        (lo..(lo + CH).min(last + 1)).flat_map(move |day| {
+            let mut h = (day as u64 ^ seed.rotate_left(23)).wrapping_mul(0x9E37_79B9_7F4A_7C15);
+            h ^= h >> 29;
+            let ns = (h % 86_400) as i64 * 1_000_000_000 + [0i64, 1, 500_000_000, 999_999_999][(h >> 20) as usize % 4];
+            let off = [0i32, 3_600, -18_000, 19_800, 86_340, -86_340][(h >> 28) as usize % 6];
+            [Case { kind: Kind::Date, v: Inst { day, ns: 0 }, off: 0, local_now: 0 }, Case { kind: Kind::DateTime, v: Inst { day, ns }, off, local_now: 0 }]
+        })
+    });
+    env.exhaustive_parts.push("C20: the Date and one DateTime of every day of the years 0001..=9999 through Display, FromStr and serde".into());
     env.run_random::<TextForms>(if t { 10_000_000 } else { 1_500_000 });
     env.run_random::<Malformed>(if t { 5_000_000 } else { 1_000_000 });
 }
